@@ -21,4 +21,7 @@ pub enum Error {
     /// An unexpected RPSL object type was received.
     #[error("unexpected RPSL object {0}")]
     RpslObjectClass(RpslObject),
+    /// `PeerAS` can only be resolved in the context of a peering, which is not available here.
+    #[error("'PeerAS' cannot be resolved outside of a peering context")]
+    UnresolvablePeerAs,
 }
